@@ -1,10 +1,119 @@
 import Dmn.Model.Sexp
+import Dmn.Model.ItemDef
+import Dmn.Driver.C03
 
-/-! Driver handler for C11 — not implemented yet. -/
+/-!
+Driver handler for C11.
+
+* item := `(simple T av)` | `(ref (s…) av)` | `(comp ((name item)…) av)` | `(collSimple T av)`
+  | `(collRef (s…) av)` | `(collComp ((name item)…) av)`; T := string | number | boolean | date |
+  time | dateTime | dtDur | ymDur; av := `none` | `(lits v…)` | `(cmp lt|le|gt|ge n)`.
+* `(c11 input ((name item)…) (s var-name…) vartype value|absent)` with vartype := `none` |
+  `(simple T)` | `(named (s…))` → `(<model> <spec> <conforms>)`: the value that reaches the
+  decision logic by the model, by the specification, and whether the value conforms.
+* `(c11 output ((name item)…) vartype value)` → `(<model>)`: the coerced decision result.
+* `(c11 classify hasTypeRef isBuiltin hasComponents isCollection)` → kind | `error`.
+
+The allowed-values tests the harness generates are literal lists and numeric comparisons; their
+FEEL meaning (`? in (…)`) on the model's value type is `avPred` below — the model itself takes
+an arbitrary predicate.
+-/
 
 namespace Dmn.Driver.C11
-open Dmn
+open Dmn Dmn.ID Dmn.Driver.C03
 
-def handle (_args : List Sexp) : String := "(error not-implemented)"
+def simpleOf : Sexp → Option Simple
+  | .atom "string" => some .string
+  | .atom "number" => some .number
+  | .atom "boolean" => some .boolean
+  | .atom "date" => some .date
+  | .atom "time" => some .time
+  | .atom "dateTime" => some .dateTime
+  | .atom "dtDur" => some .dtDur
+  | .atom "ymDur" => some .ymDur
+  | _ => none
+
+/-- `? in (l1, l2, …)`: true iff the value equals one of the scalar literals;
+`? in (< n)` etc.: true iff the value is a number in the half-line. -/
+def avOf : Sexp → Option Allowed
+  | .atom "none" => some none
+  | .list (.atom "lits" :: vs) => (vs.mapM valueOf).map (fun ls => some (fun v => ls.any (· = v)))
+  | .list [.atom "cmp", .atom op, n] => do
+    let n ← Sexp.int? n
+    let f : Int → Bool ← match op with
+      | "lt" => some (fun x => decide (x < n))
+      | "le" => some (fun x => decide (x ≤ n))
+      | "gt" => some (fun x => decide (x > n))
+      | "ge" => some (fun x => decide (x ≥ n))
+      | _ => none
+    pure (some (fun v => match v with | .num x => f x | _ => false))
+  | _ => none
+
+partial def itemOf : Sexp → Option ItemDef
+  | .list [.atom "simple", t, av] => do pure (.simple (← simpleOf t) (← avOf av))
+  | .list [.atom "ref", n, av] => do pure (.referenced (← Sexp.chars? n) (← avOf av))
+  | .list [.atom "collSimple", t, av] => do pure (.collSimple (← simpleOf t) (← avOf av))
+  | .list [.atom "collRef", n, av] => do pure (.collReferenced (← Sexp.chars? n) (← avOf av))
+  | .list [.atom "comp", .list cs, av] => do pure (.component (← cs.mapM compOf) (← avOf av))
+  | .list [.atom "collComp", .list cs, av] => do pure (.collComponent (← cs.mapM compOf) (← avOf av))
+  | _ => none
+where
+  compOf : Sexp → Option (Name × ItemDef)
+    | .list [n, it] => do pure ((← Sexp.chars? n), (← itemOf it))
+    | _ => none
+
+def defsOf (xs : List Sexp) : Option Defs :=
+  xs.mapM (fun (e : Sexp) => match e with
+    | Sexp.list [n, it] => do pure ((← Sexp.chars? n), (← itemOf it))
+    | _ => none)
+
+def varTypeOf : Sexp → Option VarType
+  | .atom "none" => some .none
+  | .list [.atom "simple", t] => (simpleOf t).map .simple
+  | .list [.atom "named", n] => (Sexp.chars? n).map .named
+  | _ => none
+
+def kindStr : Kind → String
+  | .simpleType => "simpleType" | .referencedType => "referencedType" | .componentType => "componentType"
+  | .collectionOfSimpleType => "collectionOfSimpleType"
+  | .collectionOfReferencedType => "collectionOfReferencedType"
+  | .collectionOfComponentType => "collectionOfComponentType"
+
+def fuel : Nat := 64
+
+def handle (args : List Sexp) : String :=
+  match args with
+  | [.atom "input", .list defs, name, ty, value] =>
+    match defsOf defs, Sexp.chars? name, varTypeOf ty with
+    | some defs, some name, some ty =>
+      let input? : Option DTValue := match value with
+        | .atom "absent" => some (.ctx [])
+        | v => (valueOf v).map (fun x => .ctx [(name, x)])
+      match input? with
+      | none => "(error bad-value)"
+      | some input =>
+        let m := varCheck defs fuel name ty input
+        let s := Spec.varProject defs fuel name ty input
+        let c : Bool := match value, ty with
+          | .atom "absent", _ => false
+          | v, .none => (valueOf v).isSome
+          | v, .simple t => ((valueOf v).map t.accepts).getD false
+          | v, .named n => match valueOf v, Spec.conformsName defs fuel n with
+            | some x, some p => p x
+            | _, _ => false
+        s!"({valueStr m} {valueStr s} {c})"
+    | _, _, _ => "(error bad-argument)"
+  | [.atom "output", .list defs, ty, value] =>
+    match defsOf defs, varTypeOf ty, valueOf value with
+    | some defs, some ty, some v => s!"({valueStr (coerceOutput defs fuel ty v)})"
+    | _, _, _ => "(error bad-argument)"
+  | [.atom "classify", a, b, c, d] =>
+    match Sexp.bool? a, Sexp.bool? b, Sexp.bool? c, Sexp.bool? d with
+    | some a, some b, some c, some d =>
+      match classify a b c d with
+      | some k => kindStr k
+      | none => "error"
+    | _, _, _, _ => "(error bad-argument)"
+  | _ => "(error bad-request)"
 
 end Dmn.Driver.C11
